@@ -134,7 +134,13 @@ def monitor_run(rig, res, obs, verdicts, cert_ok, cut_frames=()):
             fails.append(("c12:response-not-decodable", "frame %d: response cannot be decoded: %s" % (i, o["decode_error"])))
             continue
         ob = o["obs"]
-        if v is not None and fr in cut_frames:
+        if v is not None and fr in cut_frames and cut_frames[fr] == "mut:itemcut":
+            fails.append(("c12:incomplete-batch-decoded",
+                          "frame %d does not hold the batch items its Batch Count announces (count too large, frame ends "
+                          "at an item boundary, or an item's tag is not Request Batch Item), yet the decoder accepted "
+                          "it%s%s" % (i, " and the engine was called" if entered else "",
+                                      "" if o["unchanged"] else " and the store changed")))
+        elif v is not None and fr in cut_frames:
             fails.append(("c12:truncated-primitive-decoded",
                           "frame %d was cut inside the value of a primitive (all enclosing lengths consistent), yet "
                           "the decoder accepted it%s" % (i, " and the engine was called" if entered else "")))
@@ -238,7 +244,7 @@ def run_case(rig, snap, case, rnd, st=None, lines=None):
     -> list of (signature, what)"""
     sg = G.SessGen(rnd)
     frames = [bytes.fromhex(f) for f in case["frames"]]
-    cut_frames = set(f for f, l in zip(frames, case.get("labels") or []) if l == "mut:cutvalue")
+    cut_frames = dict((f, l) for f, l in zip(frames, case.get("labels") or []) if l in ("mut:cutvalue", "mut:itemcut"))
     stream = b"".join(frames)
     cert = case.get("cert", {"cns": 1, "eku": "client"})
     tls = case.get("tls", True)
@@ -366,7 +372,7 @@ def gen_cases(rnd, n_streams, n_sweeps):
     for _ in range(3):
         valids.append(sg.valid_big())
     mut_kinds = ["truncate", "inflate", "deflate", "type", "tag", "nest", "count", "version", "version0", "flip",
-                 "trailing", "textlen", "cutvalue", "cutvalue", "emptystring"]
+                 "trailing", "textlen", "cutvalue", "cutvalue", "emptystring", "itemcut", "itemcut"]
 
     def bad():
         if rnd.random() < 0.12:
@@ -590,24 +596,28 @@ def cutvalue_pass(ctx, rnd, n):
                 pool.append(x[0])
     tried = accepted = 0
     bad = []
+    by_kind = {}
     for _ in range(n):
         fr = sg.ch(pool)
-        m, _k = sg.mutate(fr, "cutvalue")
+        kind = "itemcut" if rnd.random() < 0.3 else "cutvalue"
+        m, _k = sg.mutate(fr, kind)
+        by_kind[kind] = by_kind.get(kind, 0) + 1
         if m == fr:
             continue
         tried += 1
         if S.parse_verdict(m, (1, 2)) is not None:
             accepted += 1
             if len(bad) < 3:
-                bad.append(m)
+                bad.append((m, kind))
+    ctx.coverage["ground_truth_frames_by_kind"] = by_kind
     ctx.coverage["cutvalue_frames"] = tried
     ctx.coverage["cutvalue_frames_accepted_by_decoder"] = accepted
     if bad:
         rig = S.Rig()
         try:
             snap = setup_base(rig)
-            for m in bad:
-                case = {"frames": [m.hex()], "labels": ["mut:cutvalue"], "chunkings": ["whole", "whole"]}
+            for m, kind in bad:
+                case = {"frames": [m.hex()], "labels": ["mut:" + kind], "chunkings": ["whole", "whole"]}
                 for sig, what in run_case(rig, snap, case, random.Random(1)):
                     ctx.report(sig, what, {"kind": "session", "case": {k: case[k] for k in case if k in
                                                                        ("frames", "events", "labels")}})
